@@ -38,12 +38,12 @@ func (c c12) Generate(seed uint64, tier string, idx int) *core.Plan {
 	n := r.Range(6, 20)
 	for i := 0; i < n; i++ {
 		p.Steps = append(p.Steps, core.Step{Op: "pipe", A: []int64{
-			int64(r.Intn(1 << 30)),                              // key seed
-			int64(r.Intn(5)),                                    // blind-key encoding class of B1
-			int64(r.Pick([]int{0, 0, 1, 13, 32, 64})),           // context length
-			int64(r.Pick([]int{0, 1, 20, 32, 48, 64, 66, 128})), // digest length
-			int64(r.Intn(2)),                                    // blinder delivery order
-			int64(r.Intn(4)),                                    // corruption in transit: 0 none, 1 blind bit, 2 context bit, 3 context extended
+			int64(r.Intn(1 << 30)), // key seed
+			int64(r.Intn(5)),       // blind-key encoding class of B1
+			int64(r.Pick([]int{0, 0, 1, 13, 32, 64, 150, 190, 206, 207, 208, 223, 224, 225, 255, 256, 300, 1000})), // context length
+			int64(r.Pick([]int{0, 1, 20, 32, 48, 64, 66, 128})),                                                    // digest length
+			int64(r.Intn(2)), // blinder delivery order
+			int64(r.Intn(4)), // corruption in transit: 0 none, 1 blind bit, 2 context bit, 3 context extended
 			int64(r.Intn(1 << 20)),
 		}})
 	}
